@@ -6,7 +6,7 @@ of every scope â€“ normal exit, exception in the body, or failed construction â€
 is LIFO and that at the end of a history the tables equal the initial tables.  Usability inside / outside the scope is
 checked directly.
 """
-import json
+import json, os
 from vt.core import outcome, dev
 from vt.util import close
 from vt.monitors import tables
@@ -24,7 +24,7 @@ MIN_NONTRIVIAL = {'quick': 600, 'thorough': 15000}
 REQUIRED_CLASSES = ['scope-valid', 'scope-nested', 'scope-repeated', 'scope-body-raises', 'fail:duplicate-standard', 'fail:duplicate-outer',
                     'fail:prefixed-clash', 'fail:malformed', 'fail:malformed-entry-with-new-conversion-type', 'fail-after-successes', 'form:dict', 'form:quantity', 'form:prefixes',
                     'form:custom-type', 'dip:valid', 'dip:clash-second-unit', 'dip:unrelated-error', 'dip:expression', 'dip:add_unit',
-                    'dip:nested-in-scope']
+                    'dip:nested-in-scope', 'dip:units-from-source']
 REQUIRED_MONITORS = ['scope_events', 'scope_end_digest_compares', 'failed_open_digest_compares', 'parse_digest_compares',
                      'usable_inside_checks', 'unusable_outside_checks', 'end_of_history_compares']
 ASSUMPTIONS = ['only input-driven failures are verdicts (no asynchronous exceptions injected at arbitrary lines)',
@@ -136,7 +136,7 @@ def gen_scope(rng, depth, avail, outer):
 
 
 def gen_dip(rng, outer):
-    kind = rng.choice(['valid', 'valid', 'clash-second-unit', 'unrelated-error', 'expression', 'add_unit', 'clash-third-unit'])
+    kind = rng.choice(['valid', 'valid', 'clash-second-unit', 'unrelated-error', 'expression', 'add_unit', 'clash-third-unit', 'units-from-source'])
     free = [n for n in NAMES if n not in outer] + ['yam', 'zed']
     a, b = rng.sample(free, 2)
     v1, v2 = rng.choice([2, 3, 0.5]), rng.choice([4, 10])
@@ -150,6 +150,11 @@ def gen_dip(rng, outer):
         text = '$unit %s = %s m\nlen float = 3 [%s]\n%s\n' % (a, v1, a, rng.choice(['bad float = {?missing}', 'x int = 3\nx = abc', 'len = 3 s', '@end']))
     elif kind == 'expression':
         text = '$unit %s = %s m\nlen float = 3 [%s]\nsum float = ("{?len} + 2 m") m\n' % (a, v1, a)
+    elif kind == 'units-from-source':
+        # units defined in a second file and requested through a source (only the table invariant is demanded of this path)
+        text = '$source src = @FILE@\n$unit {src?%s}\nlen float = 3 m\n' % rng.choice(['*', '[%s]' % a])
+        return dict(t='dip', kind=kind, text=text, add_unit=None, in_scope=bool(outer),
+                    remote='$unit %s = %s m\n$unit %s = %s s\nq float = 1 [%s]\n' % (a, v1, b, v2, a))
     else:
         text = 'len float = 3 [%s]\n$unit %s = %s s\ndur float = 1 [%s]\n' % (a, b, v2, b)
     return dict(t='dip', kind=kind, text=text, add_unit=[a, v1, 'm'] if kind == 'add_unit' else None, in_scope=bool(outer))
@@ -302,7 +307,15 @@ def run_dip(it, ctx, st, active):
         del ctx['keep'][:25]
     if it['add_unit']:
         p.add_unit(*it['add_unit'])
-    p.add_string(it['text'])
+    tmpd = None
+    text = it['text']
+    if it.get('remote'):
+        import tempfile
+        tmpd = tempfile.mkdtemp(prefix='vt_c09_')
+        with open(os.path.join(tmpd, 'u.dip'), 'w') as f:
+            f.write(it['remote'])
+        text = text.replace('@FILE@', os.path.join(tmpd, 'u.dip'))
+    p.add_string(text)
     try:
         env = p.parse()
         try:
@@ -313,9 +326,13 @@ def run_dip(it, ctx, st, active):
             pass    # whether the clash is rejected belongs to C14/C16, not to this property
     except Exception:
         pass
+    finally_rm = tmpd
     import re
-    check_unusable(ctx, st, ['[%s]' % n for n in re.findall(r'\$unit (\w+)', it['text']) if n != 'c'] +
+    check_unusable(ctx, st, ['[%s]' % n for n in re.findall(r'\$unit (\w+)', it['text'] + (it.get('remote') or '')) if n != 'c'] +
                    (['[%s]' % it['add_unit'][0]] if it['add_unit'] else []))
+    if finally_rm:
+        import shutil
+        shutil.rmtree(finally_rm, ignore_errors=True)
 
 
 def check_trace(log, st, start_digest):
